@@ -20,19 +20,26 @@ from props import c02
 RULE = ('a case = 1-3 synthetic data sets of one format (MVF v4 in-memory telstate + npy chunk store, HDF5 v3, v2, v1; '
         'also v3+v4 mixtures) with 2-7 dumps each, distinct start times (sometimes equal: refused), equal dump periods '
         '(sometimes different: must be refused), 1-3 target events per part drawn from a pool of 6 targets incl. shared '
-        'aliases and a same-name-different-target pair, 1-4 activity events, 0-3 labels, float / string / int sensors '
-        'and directly assigned int arrays each present in a random subset of the parts, sometimes a part with another '
-        'subarray or spectral window; concatenated in a random input order through katdal.open([...]) or '
+        'aliases and a same-name-different-target pair, 1-4 activity events, 0-3 labels, float / string / int / bool '
+        '(now and then uint8) sensors and directly assigned int arrays each present in a random subset of the parts, '
+        'sometimes parts of another subarray (other antenna, same products in another order, same antenna names at '
+        'another position) and / or spectral window (centre frequency, channel width, product, band), also several of '
+        'both; concatenated in a random input order through katdal.open([...]) or '
         'ConcatenatedDataSet([...]); then 2-4 histories of 1-6 select() calls of C02\'s generator (all criterion kinds '
         'and argument forms) with, after every call, the masks of every part compared with the translated call on '
         'its stand-alone twin, a second-stage index (int / slice / mask / sorted list per axis, spanning part '
         'boundaries) on timestamps / vis / flags / weights and the selected values of every sensor; scans() / '
-        'compscans() run to exhaustion.  Non-trivial: at least 2 parts opened and a selection that keeps dumps of at '
+        'compscans() run to exhaustion; on concatenations with several subarrays / windows the same after '
+        'select(subarray=s, spw=w) for every pair (s, w) plus a fixed pol / ants / inputs / corrprods / freqrange history.  Non-trivial: at least 2 parts opened and a selection that keeps dumps of at '
         'least two parts; distinct by the generated case (seed)')
 ASSUMPTIONS = ['parts of a case cover disjoint time ranges (compatible data sets); overlapping parts are not generated',
-               'select histories are run on concatenations with one merged subarray and spectral window (C02\'s model); '
-               'concatenations with several subarrays / spectral windows are compared at open level (merged lists, '
-               'index sensors, default selection spw=0 subarray=0, data under the default selection)',
+               'select histories on concatenations with several merged subarrays / spectral windows start with '
+               'select(subarray=s, spw=w) and do not name spw / subarray again (Model/ConcatMulti.v); v3+v4 mixtures (no '
+               'common dump grid) get a model-free battery of index-free criteria against the stand-alone parts',
+               'subarrays / spectral windows are identified by their public attributes (antenna descriptions and '
+               'correlation products in order; centre_freq, channel_width, num_chans, sideband, band, product, bandwidth)',
+               'a sensor of an unsigned integer type missing from a part: open finding C19-F4; once repaired any single '
+               'filler value over the absent parts is accepted',
                'parts whose subarrays / spectral windows differ in the NUMBER of products / channels are not generated '
                '(the v4 indexers of such a concatenation raise on any data access)',
                'second-stage indices are restricted to the forms C05 proves for ConcatenatedLazyIndexer: no negative '
@@ -1422,7 +1429,7 @@ def run(ctx):
     for f in ctx.findings:
         w = f['witness']
         run_case(ctx, w.get('cseed', 0), gen=w.get('gen'))
-    n = ctx.scale(70, 1100)
+    n = ctx.scale(62, 1000)
     seeds = [ctx.rng.randrange(1 << 30) for _ in range(n)]
     kinds = {}
     for cseed in seeds:
